@@ -11,7 +11,10 @@ from ..domain import RAW, RAW_NONSTR, UNKNOWN, is_esc
 
 LEVEL = ("path rules over the 14 builders and their convert_value implementations (every path of the function is walked with the "
          "decisions taken on it, calls to the private helpers of its region are walked in place): the default flows into convert_value, on every path a PropertyError result is returned and the "
-         "class is registered / the property returned only after the result was tested, the property stores the converted Value; "
+         "class is registered / the property returned only after the result was tested (no path returns a property past the conversion "
+         "unless it returns what another builder built or no default is declared on it), the property stores the converted Value; "
+         "wherever property_from_data or a builder hands the property on to a builder, the declared default goes with it (the default "
+         "argument is the declared default, the schema argument the schema or a copy that keeps its default; three frozen exceptions); "
          "convert_value rejects by default (every path without a positive type / membership / equality decision about the value "
          "ends in an error, every accepting return lies only on paths with such a decision, bool excluded wherever int is "
          "accepted); python_code is built not pasted (label analysis); the $ref route and the allOf merge route re-convert with "
@@ -25,7 +28,9 @@ NO_DEFAULT = {"ListProperty", "ModelProperty", "FileProperty"}  # kinds without 
 _BUILTIN_EXT = {"str": {"str"}, "float": {"float"}, "int": {"int", "bool"}, "bool": {"bool"}, "bytes": {"bytes"}, "list": {"list"},
                 "dict": {"dict"}, "tuple": {"tuple"}, "set": {"set"}}
 _NONNULL_CALLS = {"str", "repr", "format", "join", "float", "int", "bool"}
-ACCEPTING = {"built", "conv", "valid", "other", "nonnull", "param"}
+ACCEPTING = {"built", "conv", "valid", "other", "nonnull", "param", "deleg", "schema"}
+_BUILDER_ENTRIES = {"build", "property_from_data"}   # what hands a schema / a default on to (another) builder
+_COPIES = {"model_copy", "copy", "deepcopy", "evolve", "replace"}   # X.model_copy(...), evolve(X, ...), copy(X): X again, with overrides
 _PREDICATES = {"isinstance", "issubclass", "callable", "hasattr", "all", "any", "bool"}   # builtins whose result is a truth value
 
 
@@ -33,7 +38,9 @@ _PREDICATES = {"isinstance", "issubclass", "callable", "hasattr", "all", "any", 
 # Every path of one (small) function is walked over its statement structure.  A state carries, for the path walked so far,
 #   kind   what each local / parameter holds:  none | error | conv (result of a *.convert_value call, untested) | valid (such a
 #          result after `isinstance(x, <Error>)` was answered no) | built (Value(...)) | nonnull | passed (already a Value) |
-#          param (untouched parameter) | other;  conv / valid / error remember the call they come from
+#          param (untouched parameter) | other;  conv / valid / error remember the call they come from;
+#          deleg (what another builder returned: X.build(...) / property_from_data(...), remembers the call; the first element of its
+#          unpacked pair is still that) | schema (the schema that carries the declared default, or a copy of it that keeps the default)
 #   facts  the truth value of every decision taken (atoms in positive form: `a is not b` is `a is b` answered no, so inverted tests,
 #          swapped branches, early return vs nested if all yield the same facts); dropped when a name they mention is re-bound
 #   hist   the same decisions, kept for good (what has been established about the value on this path)
@@ -185,16 +192,22 @@ def _arg_map(c: ast.Call, h: Any) -> dict[str, ast.expr]:
 
 class Paths:
     def __init__(self, fn: ast.FunctionDef, tainted: set[str] = frozenset(), source: Callable[[ast.AST], bool] | None = None,
-                 source_nonnull: bool = False, subject: str | None = None, helpers: dict[str, Any] | None = None) -> None:
-        """subject  the parameter whose value is being converted (R13.2): what is decided about it under any of its names counts
-                    as decided about the value
-           helpers  the private helpers of fn's region (_helpers_of): calls to them are walked in place"""
+                 source_nonnull: bool = False, subject: str | None = None, helpers: dict[str, Any] | None = None,
+                 schema: str | None = None, callee_of: Callable[[ast.Call], Any] | None = None) -> None:
+        """subject  the parameter whose value is being converted (R13.2) / that is the declared default (R13.1): what is decided about
+                    it under any of its names counts as decided about the value; an expression `source` accepts is the subject too
+           helpers  the private helpers of fn's region (_helpers_of): calls to them are walked in place
+           schema   the parameter that is the schema carrying the declared default
+           callee_of  the builder a call X.build(...) / property_from_data(...) goes to (its parameter names tell which argument is
+                    the default / the schema)"""
         self.fn = fn
         a = fn.args
         self.params = {x.arg for x in [*a.posonlyargs, *a.args, *a.kwonlyargs]}
         self.source = source or (lambda n: False)
         self.source_nonnull = source_nonnull
         self.helpers = helpers or {}
+        self.callee_of = callee_of or (lambda c: None)
+        self.delegs: dict[int, tuple[ast.Call, set[tuple[bool, str, str]]]] = {}   # builder call -> (node, {(default handed on?, parameter, argument)})
         self.sites: dict[int, tuple[ast.Call, bool]] = {}    # conversion call -> (node, argument derived from the source?)
         self.walked: dict[int, list[ast.Call]] = {}          # conversion call -> the call as it was walked (in a helper: in the
         #                                                      caller's names where parameters were bound to plain names)
@@ -214,6 +227,8 @@ class Paths:
             s0.kind[p] = ("param", None)
         if subject is not None:
             s0.alias = frozenset({subject})
+        if schema is not None and schema in self.params:
+            s0.kind[schema] = ("schema", None)
         outs = self._block(fn.body, [s0], None)
         for s in outs:
             self.records.append((None, s))
@@ -239,6 +254,8 @@ class Paths:
         if isinstance(e, ast.Name):
             return st.kind.get(e.id, ("other", None))
         if isinstance(e, ast.Call):
+            if f"@{id(e)}" in st.kind:     # a helper call inside a statement, walked in place: what it returned on this path
+                return st.kind[f"@{id(e)}"]
             last = call_name(e).rsplit(".", 1)[-1]
             if last in ERROR_CLASSES or last in ERROR_ONLY_HELPERS:
                 return ("error", None)
@@ -248,10 +265,55 @@ class Paths:
                 return ("built", None)
             if last in _NONNULL_CALLS:
                 return ("nonnull", None)
+            if last == "cast" and len(e.args) == 2:
+                return self.kind_of(e.args[1], st)
+            if last in _BUILDER_ENTRIES and (last != "build" or isinstance(e.func, ast.Attribute)):
+                return ("deleg", self._deleg(e, st))
+            if self._keeps_default(e, last, st):
+                return ("schema", None)
             return ("other", None)
         if self.source(e) and self.source_nonnull:
             return ("nonnull", None)
         return ("other", None)
+
+    def _keeps_default(self, c: ast.Call, last: str, st: PState) -> bool:
+        """is c the schema that carries the declared default again: a copy of it that does not override `default` with anything but the
+        declared default, or something constructed with `default=<the declared default>`"""
+        over: dict[str, ast.expr] = {kw.arg: kw.value for kw in c.keywords if kw.arg}
+        if last in _COPIES:
+            base = c.func.value if isinstance(c.func, ast.Attribute) and last in ("model_copy", "copy") and not c.args else (c.args[0] if c.args else None)
+            if base is None or self.kind_of(base, st)[0] != "schema":
+                return False
+            upd = over.pop("update", None)
+            if upd is not None:
+                if not (isinstance(upd, ast.Dict) and all(isinstance(k, ast.Constant) for k in upd.keys)):
+                    return False
+                over.update({str(k.value): v for k, v in zip(upd.keys, upd.values)})
+            return "default" not in over or self._is_decl(over["default"], st)
+        return "default" in over and self._is_decl(over["default"], st)
+
+    def _is_decl(self, e: ast.expr | None, st: PState) -> bool:
+        """is e the declared default itself"""
+        if isinstance(e, ast.IfExp):
+            return self._is_decl(e.body, st) and self._is_decl(e.orelse, st)
+        return e is not None and self._is_alias(e, st)
+
+    def _deleg(self, c: ast.Call, st: PState) -> int:
+        """a call that hands the property over to (another) builder: is the declared default handed over with it"""
+        k = self.oid(c)
+        h = self.callee_of(self.origin(c))
+        names = {x.arg for x in [*h.node.args.posonlyargs, *h.node.args.args, *h.node.args.kwonlyargs]} if h is not None else {kw.arg for kw in c.keywords}
+        amap = _arg_map(c, h) if h is not None else {kw.arg: kw.value for kw in c.keywords if kw.arg}
+        if "default" in names:
+            arg = amap.get("default")
+            verdict = (arg is not None and self._is_decl(arg, st), "default", norm(arg) if arg is not None else "<not given>")
+        elif "data" in names:
+            arg = amap.get("data")
+            verdict = (arg is not None and self.kind_of(arg, st)[0] == "schema", "data", norm(arg) if arg is not None else "<not given>")
+        else:
+            verdict = (False, "?", "<no default / data parameter>")
+        self.delegs.setdefault(k, (self.origin(c), set()))[1].add(verdict)
+        return k
 
     def _site(self, c: ast.Call, st: PState) -> int:
         k = self.oid(c)
@@ -346,15 +408,28 @@ class Paths:
         assigned = {id(v) for v in _arms(value)} if isinstance(n, (ast.Assign, ast.AnnAssign)) and value is not None else set()
         whole = value if isinstance(n, (ast.Return, ast.Expr)) and isinstance(value, ast.Call) and self._target(value) is not None \
             and depth < 4 else None
+        rest: list[ast.expr] | None = None
+        if whole is None and isinstance(n, ast.Return) and isinstance(value, ast.Tuple) and value.elts and isinstance(value.elts[0], ast.Call) \
+                and self._target(value.elts[0]) is not None and depth < 4:
+            whole, rest = value.elts[0], value.elts[1:]     # return helper(...), x: what the helper returned is the first element
         states = [s]
         for c in [c for c in calls_in(n) if c is not whole and id(c) not in assigned and self._target(c) is not None]:
-            states = _dedupe([s2 for x in states for s2, _ in self._inline(c, x)])
+            nxt: list[PState] = []
+            for x in states:
+                for s2, rv in self._inline(c, x):     # what the call evaluates to on this path is kept under the call's own name
+                    k, d, al = self.kind_of(rv, s2), self.derived(rv, s2), self._is_alias(rv, s2)
+                    s2 = s2.copy()
+                    self._bind(s2, f"@{id(c)}", k, d, al)
+                    nxt.append(s2)
+            states = _dedupe(nxt)
         if whole is None:
             return [y for x in states for y in self._leaf(n, x, loop)]
         out = []
         for x in states:
             for s2, rv in self._inline(whole, x):
                 rv = rv if rv is not None else ast.Constant(value=None)
+                if rest is not None:
+                    rv = ast.Tuple(elts=[rv, *rest], ctx=ast.Load())
                 n2: ast.stmt = ast.Return(value=rv) if isinstance(n, ast.Return) else ast.Expr(value=rv)
                 ast.copy_location(n2, n)
                 self._orig[id(n2)] = self.origin(n)
@@ -574,17 +649,20 @@ class Paths:
         """is e the subject itself"""
         if isinstance(e, ast.Call) and call_name(e).rsplit(".", 1)[-1] == "cast" and len(e.args) == 2:
             e = e.args[1]
-        return isinstance(e, ast.Name) and e.id in s.alias
+        return (isinstance(e, ast.Name) and e.id in s.alias) or (e is not None and self.source(e))
 
     def _assign_target(self, s: PState, t: ast.expr, k: tuple[str, int | None], d: bool, al: bool = False) -> None:
         if isinstance(t, ast.Name):
             self._bind(s, t.id, k, d, al)
         elif isinstance(t, (ast.Tuple, ast.List)):
-            for e in t.elts:
-                self._assign_target(s, e, ("other", None), d)
+            for i, e in enumerate(t.elts):     # prop, schemas = X.build(...): the first element is what that builder built
+                self._assign_target(s, e, k if i == 0 and k[0] == "deleg" and not isinstance(e, ast.Starred) else ("other", None), d)
         elif isinstance(t, ast.Starred):
             self._assign_target(s, t.value, ("other", None), d)
         else:   # attribute / subscript store: what was decided about that place no longer holds
+            if isinstance(t, ast.Attribute) and t.attr == "default" and isinstance(t.value, ast.Name) and not al \
+                    and s.kind.get(t.value.id, ("other", None))[0] == "schema":
+                s.kind[t.value.id] = ("other", None)     # the schema no longer carries the declared default
             txt = norm(t)
             for f in [f for f in s.facts if txt in f]:
                 del s.facts[f]
@@ -753,6 +831,21 @@ class Paths:
         return s
 
 
+# R13.7: builder calls that deliberately do not hand the declared default on.  (root function, builder, parameter, argument) -> reason
+HANDOVER_EXCEPTIONS = {
+    ("property_from_data", "FileProperty.build", "default", "None"): "a string of format binary takes no default: None is handed on, a declared default is ignored",
+    ("EnumProperty.build", "NoneProperty.build", "default", "'None'"): "an enum whose only value is null is the constant None, whatever default is declared",
+    ("LiteralEnumProperty.build", "NoneProperty.build", "default", "'None'"): "an enum whose only value is null is the constant None, whatever default is declared",
+}
+
+
+def _no_default_declared(s: PState, params: list[str]) -> bool:
+    """on this path the declared default was found to be absent (None)"""
+    if "default" in params and s.kind.get("default", ("other", None))[0] == "none":
+        return True
+    return s.facts.get("data.default is None") is True or s.facts.get("data.default") is False
+
+
 def _value_param(f: Any) -> str | None:
     ps = [p.arg for p in f.params if p.arg not in ("self", "cls")]
     return ps[0] if ps else None
@@ -801,11 +894,27 @@ def run(rep: Report, ctx: Any) -> str:
                       "with a wrapper schema the default is the referenced class's tested conversion of parent.default; "
                       "_merge_common_attributes converts the override with the merged class on every path, unions try members")
     rep.rule("R13.5", "to_string returns default.python_code on every path on which a default exists")
+    rep.rule("R13.7", "the declared default reaches the builder: wherever property_from_data or a builder hands the property on to (another) "
+                      "builder and returns what that builds, the declared default is handed on with it - the builder's `default` argument "
+                      "is the declared default itself, its `data` argument the schema itself or a copy that keeps its default")
     rep.rule("R13.6", "allOf: when two members declare the same property the later declaration's default wins: the incoming property "
                       "reaches every _merge_common_attributes call as the last override (roles followed through the calls of the merge "
                       "module), overrides are applied in argument order and the override's converted default is preferred")
 
     props = ix.property_classes()
+    by_name = {c.name: c for c in props}
+    pfd = ix.func("properties.property_from_data")
+
+    def callee_in(owner: Any) -> Callable[[ast.Call], Any]:
+        def callee_of(c_: ast.Call) -> Any:
+            head, _, last = call_name(c_).rpartition(".")
+            if last == "build":
+                k = owner if head in ("cls", "self") else by_name.get(head.rsplit(".", 1)[-1])
+                return ix.find_method(k, "build") if k is not None else None
+            return pfd if last == pfd.name else None
+        return callee_of
+
+    handovers: list[tuple[str, Any, Paths]] = []     # (root, function, its paths) for R13.7
     # ---- R13.1 ---------------------------------------------------------------------------------------------------------
     # asked of the builder with the private helpers of its region walked in place (so the conversion, the test, the registration
     # and the construction may each sit in `build` or in a helper it hands the default - or the schema declaring it - to)
@@ -823,7 +932,9 @@ def run(rep: Report, ctx: Any) -> str:
             continue
         n_b += 1
         key = f"{c.name}.build"
-        pp = Paths(b.node, tainted={"default"} & set(params), source=is_source, helpers=helpers)
+        pp = Paths(b.node, tainted={"default"} & set(params), source=is_source, helpers=helpers, subject="default" if "default" in params else None,
+                   schema="data" if "data" in params else None, callee_of=callee_in(c))
+        handovers.append((key, b, pp))
         conv = [n for f in reg_fns for n in ast.walk(f.node) if isinstance(n, ast.Call) and call_name(n).endswith("convert_value")]
         rep.check(bool(conv), "R13.1", key + "::converts", "the builder does not pass the default through convert_value", where(b, b.node),
                   lhs=[norm(x)[:50] for x in conv], rhs="convert_value(default)")
@@ -841,6 +952,14 @@ def run(rep: Report, ctx: Any) -> str:
         rep.check(tested and not lost and not untested, "R13.1", key + "::error-returned",
                   "a PropertyError from convert_value is not returned by the builder", where(b, b.node), lhs=lost + untested,
                   rhs="every path: isinstance(<converted>, PropertyError) decided; yes -> it is returned")
+        # no path returns a property past the conversion: it returns an error, what another builder built (R13.7: with the default handed
+        # on), or the converted default was tested on it - unless no default is declared on that path
+        past = sorted({f"`{norm(n)[7:60] if n is not None else 'None'}` when {sorted(f'{t}={v}' for t, v in s.facts.items() if 'default' in t) or 'always'}"
+                       for n, s in pp.returns() if pp.returned(n, s)[0] not in ("error", "deleg") and not (s.oks & sites)
+                       and not _no_default_declared(s, params)})
+        rep.check(not past, "R13.1", key + "::every-path-converts", "the builder returns a property on a path on which the declared default was "
+                  "neither converted and tested nor handed on to another builder (the default is ignored there, a bad one is not reported)",
+                  where(b, b.node), lhs=past, rhs="every returning path: an error | what another builder returned | the default's conversion was tested")
         # registration (classes_by_name) only on paths where the result was found not to be an error
         regs: dict[int, tuple[ast.stmt, list[bool]]] = {}
         for n, s in pp.stmts():
@@ -863,6 +982,32 @@ def run(rep: Report, ctx: Any) -> str:
                   "the property stores something other than the converted default", where(b, b.node),
                   lhs=bad or [norm(v)[:40] for v, _ in final], rhs="the tested result of convert_value(default)")
     rep.floor("builders_with_default", n_b, 7)
+
+    # ---- R13.7 ---------------------------------------------------------------------------------------------------------
+    # asked of property_from_data (with its private helpers walked in place) and of every builder above: the builder calls whose
+    # result is what the function returns on some path (directly, through a local, as the first element of the returned pair)
+    p_params = [p.arg for p in pfd.params]
+    handovers.append((pfd.name, pfd, Paths(
+        pfd.node, source=lambda n: isinstance(n, ast.Attribute) and norm(n) == "data.default" and "data" in p_params, helpers=_helpers_of(ix, pfd),
+        schema="data" if "data" in p_params else None, callee_of=callee_in(None))))
+    n_h = 0
+    for root, f, pp in handovers:
+        returned = {k for n, s in pp.returns() for tag, k in [pp.returned(n, s)] if tag == "deleg"}
+        for k in sorted(returned, key=lambda k_: getattr(pp.delegs[k_][0], "lineno", 0)):
+            call, verdicts = pp.delegs[k]
+            n_h += 1
+            h = pp.callee_of(call)      # the key names the builder (a class / function of the repository), never a local
+            target = (f"{h.cls.name}.{h.name}" if h.cls is not None else h.name) if h is not None else "<computed>.build"
+            bad = sorted({(param, arg) for ok_, param, arg in verdicts if not ok_})
+            frozen = [HANDOVER_EXCEPTIONS.get((root, target, param, arg)) for param, arg in bad]
+            if bad and all(frozen):
+                rep.ok("R13.7", f"{root}::hands-on-default[{target}]", "confirmed exception", "; ".join(sorted(set(frozen))))
+                continue
+            rep.check(not bad, "R13.7", f"{root}::hands-on-default[{target}]",
+                      "the property is handed on to a builder without its declared default: the default is ignored (omitting the argument "
+                      "no longer encodes it) and a bad one is not reported", where(f, call), lhs=[f"{param}={arg}" for param, arg in bad] or
+                      sorted({f"{param}={arg}" for _, param, arg in verdicts}), rhs="default=<the declared default> | data=<the schema itself / a copy that keeps its default>")
+    rep.floor("builder_handovers", n_h, 9)
 
     # ---- R13.2 -------------------------------------------------------------------------------------------------------------
     n_c = 0
